@@ -91,5 +91,9 @@ func TestHashes(t *testing.T) {
 	for seed := a; seed <= b; seed++ {
 		res := RunOne(t, RunSpec{Seed: seed, Prop: *fProp, Tier: *fTier, AllProps: true}, newStats())
 		fmt.Printf("HASH %d %s\n", seed, res.LogHash)
+		pr := RunProvider(t, ProvSpec{Seed: seed}, newStats())
+		fmt.Printf("HASH p%d %s\n", seed, pr.LogHash)
+		pa := RunPair(t, RunSpec{Seed: seed, Prop: "C12", Tier: *fTier}, PairVariant{Kind: []string{"world", "faults", "dry"}[seed%3], Group: int(seed % 2)}, newStats())
+		fmt.Printf("HASH x%d %s:%d\n", seed, pa.LogHash, len(pa.Violations))
 	}
 }
